@@ -22,11 +22,11 @@ TInit == Init /\ l = 1
 
 TReset == /\ IsEvent("Reset")
           /\ ipmap' = {} /\ jwl' = {} /\ jbl' = {} /\ gwl' = {} /\ gbl' = {}
-          /\ cur' = NoCfg /\ applied' = {} /\ ncfg' = 0 /\ nreq' = 0 /\ act' = act /\ pend' = pend
+          /\ cur' = NoCfg /\ applied' = {} /\ ncfg' = 0 /\ nreq' = 0 /\ act' = act /\ pend' = pend /\ lastc' = lastc
 
 TCfg == /\ IsEvent("Cfg")
         /\ InitCfg(CfgOf(Ev.c))
-        /\ UNCHANGED <<nreq, act, pend>>
+        /\ UNCHANGED <<nreq, act, pend, lastc>>
 
 TReqM == /\ IsEvent("Req") /\ Ev.ep \in {"jrpc", "grpc"}
          /\ ncfg > 0
